@@ -251,7 +251,7 @@ def _compat_contract(name, docstr):
     class CC(Contract):
         id = "Link_" + name
         fn = "gfapy/line/edge/link/equivalence.py::Equivalence." + name
-        props = ("C12", "C14", "C03")
+        props = ("C12", "C14", "C03", "C05")
         doc = docstr
 
         def cases(self, ctx):
